@@ -405,6 +405,9 @@ def build(tier):
     ecd16 = D("EClD16", "enum", True, tag="u16", variants=[("A", "unit", [], False), ("B", "unit", [], True)], default=True, discrs=[7, 0x0300])
     esd = D("ESDisc", "enum", True, variants=[("A", "unit", [], True), ("B", "tuple", [(None, U8)], False),
                                                ("C", "named", [("a", U16)], False)], default=True, discrs=[1, 5, 9])
+    # an omitted discriminant after an explicit one continues +1 (not the variant's position)
+    esdi = D("ESDiscI", "enum", True, variants=[("A", "unit", [], True), ("B", "tuple", [(None, U8)], False),
+                                                 ("C", "named", [("a", U16)], False)], default=True, discrs=[0x10, None, None])
     es = D("ESz", "enum", True, variants=[("A", "unit", [], True), ("B", "tuple", [(None, U16), (None, U8)], False),
                                             ("C", "named", [("a", U8), ("b", U16)], False), ("D", "tuple", [(None, U32)], False)],
            default=True)
@@ -470,6 +473,11 @@ def build(tier):
     us_inh = D("USInh", "struct", False, fields=[("kind", U8), ("items", vec_u8_u8)], default=True,
                extra="impl USInh {\n    /// number of items - ordinary user API with the name of FlatBase::size\n    pub fn size(&self) -> usize { self.items.len() }\n}\n")
     us_hij = D("USHij", "struct", False, fields=[("id", U32), ("payload", us_inh.t)], default=True)
+    # ... and a field type with an inherent associated function named like FlatDefault::default_emplacer (a type-qualified path
+    # `<Ty>::default_emplacer()` in generated code would resolve to it)
+    s_dhij = D("SDefHij", "struct", True, fields=[("major", U8), ("minor", U8)], default=True,
+               extra="impl SDefHij {\n    /// ordinary user API with the name of FlatDefault::default_emplacer\n    pub fn default_emplacer() -> Self { SDefHij { major: 3, minor: 7 } }\n}\n")
+    us_dhij = D("USDefHij", "struct", False, fields=[("version", s_dhij.t), ("items", vec_u8_u8)], default=True)
     us_pad2 = D("USPad2", "struct", False, fields=[("a", U8), ("b", U64), ("c", U16), ("s", str_u8)], default=True)
 
     # ---- unsized enums
@@ -488,6 +496,8 @@ def build(tier):
                                                ("C", "tuple", [(None, es.t), (None, flex_str_u8)], False)], vis="pub")
     ue_disc = D("UEDisc", "enum", False, variants=[("A", "unit", [], True), ("B", "tuple", [(None, U8), (None, vec_u8_u8)], False),
                                                      ("C", "unit", [], False)], default=True, discrs=[3, 9, 4])
+    ue_disci = D("UEDiscI", "enum", False, variants=[("A", "unit", [], True), ("B", "tuple", [(None, U8), (None, vec_u8_u8)], False),
+                                                       ("C", "unit", [], False)], default=True, discrs=[0x10, None, None])
     ue_s = D("UESz", "enum", False, variants=[("A", "unit", [], True), ("B", "tuple", [(None, U8), (None, U16)], False),
                                                 ("C", "named", [("a", U8), ("b", U16), ("c", array(U8, 4))], False)], default=True)
     ue_p = D("UEPort", "enum", False, variants=[("A", "unit", [], True), ("B", "tuple", [(None, BE_F32), (None, sp.t)], False),
